@@ -232,7 +232,11 @@ func (d *Decoder) readTypedList(tag byte) (interface{}, error) {
 
 	aryType, ok := d.typMap[listTyp]
 	if !ok {
-		return nil, newCodecError("readTypedList", "can't find list type %s", listTyp)
+		if d.skipDepth == 0 {
+			return nil, newCodecError("readTypedList", "can't find list type %s", listTyp)
+		}
+		// the list belongs to an unknown field and is dropped anyway
+		aryType = reflect.TypeOf([]interface{}{})
 	}
 
 	aryValue := reflect.MakeSlice(aryType, length, length)
